@@ -43,10 +43,12 @@ def build_request(rid):
     elif rid == 5:
         kw.update(precision="double")
     elif rid == 6:
-        kw.update(footprint=False)
+        kw.update(footprint=False, halo=None)
         shape = (6, 10)
     elif rid == 7:
-        kw.update(modes=(6, 4), halo=None)
+        # the same extended grid, level count and precision as request 1 with FEWER modes: whatever an earlier solve
+        # left in a work array of that shape must not reach this one
+        kw.update(modes=(6, 4))
     elif rid == 8:
         kw.update(footprint=False, levels=[1, 5, 2], precision="double", meas_pt=(0.0, 0.0))
     q = rng.uniform(-1, 2, size=shape)
